@@ -4,34 +4,32 @@
 // (C12 maturity, C02 conservation, C03).  Comment-only file, read by /verif/govc.
 //
 // Vocabulary (data/network_delegation): ndRaw/ndPend/ndPendTotal (pending undelegations),
-// ndRRaw/ndRewPend/ndRPendTotal (pending reward withdrawals), ndScanA/ndScanCount
-// (what Store.IteratePendingAmounts visits), ndPDA/ndPDCount (what DelegRewardStore.IteratePD visits).
+// ndRRaw/ndRewPend/ndRPendTotal (pending reward withdrawals), ndPDA/ndPDCount (what DelegRewardStore.IteratePD visits).
 
 package app
 
 // ================================================================ addMaturedAmountsToBalance (undelegations)
 //
 // H = req.Header.Height, D = ctx.netwkDelegators.Deleg, B = ctx.balances.
-// D.IteratePendingAmounts(H) visits exactly the pending records of height H (scan prefix with separator,
-// proved in data/network_delegation since repair 5f46b28), so all clauses are unconditional:
-// every visited record (H,d) is paid to d and zeroed, nothing else changes, paid == zeroed.
+// D.IteratePendingAmounts(H) is a proved iterator (data/network_delegation): every element handed to the callback is
+// the pending record of exactly height H and of the yielded address, with the amount currently stored.  Hence:
+// what is paid is what is zeroed, only pending records of height H change (to 0), nobody is debited.  The proved
+// iterator does not enumerate the scan, so nothing is claimed about WHICH records of height H are visited
+// (completeness: the scan walks the keys already written to the tree).
 //@ func addMaturedAmountsToBalance
-//@   requires ctx != nil && ctx.netwkDelegators != nil && ctx.netwkDelegators.Deleg != nil && ctx.balances != nil && req != nil && curOK(ctx.currencies) && has(ctx.currencies.nameMap, "OLT")
+//@   requires ctx != nil && ctx.netwkDelegators != nil && ctx.netwkDelegators.Deleg != nil && ctx.balances != nil && ctx.deliver != nil && req != nil && curOK(ctx.currencies) && has(ctx.currencies.nameMap, "OLT")
 //@   requires forall k string :: ndRaw(ctx.netwkDelegators.Deleg)[k] >= 0                                                          // C12.records-non-negative
-//@   modifies ctx.netwkDelegators.Deleg.State, ctx.balances.State, ndLastScan(ctx.netwkDelegators.Deleg), ndRaw(ctx.netwkDelegators.Deleg), ndHas(ctx.netwkDelegators.Deleg), ndOK(ctx.netwkDelegators.Deleg), ndPendTotal(ctx.netwkDelegators.Deleg), bal(ctx.balances), balTotal(ctx.balances), vHas(ctx.deliver), vVal(ctx.deliver)
-//@   invariant iter1: !$stopped && delegStore == ctx.netwkDelegators.Deleg && balanceStore == ctx.balances && height == req.Header.Height && c.Name == "OLT"
+//@   modifies ctx.netwkDelegators.Deleg.State, ctx.balances.State, exhausted(ctx.deliver.cache), exhausted(ctx.deliver.txSession), ndRaw(ctx.netwkDelegators.Deleg), ndHas(ctx.netwkDelegators.Deleg), ndOK(ctx.netwkDelegators.Deleg), ndPendTotal(ctx.netwkDelegators.Deleg), bal(ctx.balances), balTotal(ctx.balances), vHas(ctx.deliver), vVal(ctx.deliver)
+//@   invariant iter1: delegStore == ctx.netwkDelegators.Deleg && balanceStore == ctx.balances && height == req.Header.Height && c.Name == "OLT" && ctx.netwkDelegators.Deleg.State == ctx.deliver
 //@   invariant iter1: forall k string :: ndRaw(ctx.netwkDelegators.Deleg)[k] >= 0                                                  // C12.records-non-negative
 //@   invariant iter1: forall k string :: ndRaw(ctx.netwkDelegators.Deleg)[k] == old(ndRaw(ctx.netwkDelegators.Deleg))[k] || (ndRaw(ctx.netwkDelegators.Deleg)[k] == 0 && ndIsPend(ctx.netwkDelegators.Deleg, k))   // C12.only-zeroing
-//@   invariant iter1: forall j int :: 0 <= j && j < $n ==> ndPend(ctx.netwkDelegators.Deleg, req.Header.Height, bytes(ndScanA(ctx.netwkDelegators.Deleg, req.Header.Height, j))) == 0                         // C12.paid-record-cleared
-//@   invariant iter1: forall j int :: $n <= j && j < ndScanCount(ctx.netwkDelegators.Deleg, req.Header.Height) ==> ndPend(ctx.netwkDelegators.Deleg, req.Header.Height, bytes(ndScanA(ctx.netwkDelegators.Deleg, req.Header.Height, j))) == old(ndPend(ctx.netwkDelegators.Deleg, req.Header.Height, bytes(ndScanA(ctx.netwkDelegators.Deleg, req.Header.Height, j))))   // C12.unvisited-unchanged
-//@   invariant iter1: forall j int :: 0 <= j && j < $n ==> bal(ctx.balances)[balKey(bytes(ndScanA(ctx.netwkDelegators.Deleg, req.Header.Height, j)), "OLT")] >= old(bal(ctx.balances))[balKey(bytes(ndScanA(ctx.netwkDelegators.Deleg, req.Header.Height, j)), "OLT")] + old(ndPend(ctx.netwkDelegators.Deleg, req.Header.Height, bytes(ndScanA(ctx.netwkDelegators.Deleg, req.Header.Height, j))))   // C12.paid-to-delegator
+//@   invariant iter1: forall k string :: ndRaw(ctx.netwkDelegators.Deleg)[k] != old(ndRaw(ctx.netwkDelegators.Deleg))[k] ==> exists a bytes :: k == ndPendKey(ctx.netwkDelegators.Deleg, req.Header.Height, a)   // C12.only-height-H
 //@   invariant iter1: forall k string :: bal(ctx.balances)[k] >= old(bal(ctx.balances))[k]                                      // C03.nobody-debited
 //@   invariant iter1: forall cur string :: cur != "OLT" ==> balTotal(ctx.balances)[cur] == old(balTotal(ctx.balances))[cur]     // C02.conserve
 //@   invariant iter1: ndActTotal(ctx.netwkDelegators.Deleg) == old(ndActTotal(ctx.netwkDelegators.Deleg))                                                 // C12.active-untouched
 //@   invariant iter1: balTotal(ctx.balances)["OLT"] + ndPendTotal(ctx.netwkDelegators.Deleg) == old(balTotal(ctx.balances))["OLT"] + old(ndPendTotal(ctx.netwkDelegators.Deleg))   // C12.paid-equals-zeroed
 //@   ensures forall k string :: ndRaw(ctx.netwkDelegators.Deleg)[k] == old(ndRaw(ctx.netwkDelegators.Deleg))[k] || (ndRaw(ctx.netwkDelegators.Deleg)[k] == 0 && ndIsPend(ctx.netwkDelegators.Deleg, k))   // C12.only-zeroing
-//@   ensures forall j int :: 0 <= j && j < ndScanCount(ctx.netwkDelegators.Deleg, req.Header.Height) ==> ndPend(ctx.netwkDelegators.Deleg, req.Header.Height, bytes(ndScanA(ctx.netwkDelegators.Deleg, req.Header.Height, j))) == 0               // C12.paid-record-cleared
-//@   ensures forall j int :: 0 <= j && j < ndScanCount(ctx.netwkDelegators.Deleg, req.Header.Height) ==> bal(ctx.balances)[balKey(bytes(ndScanA(ctx.netwkDelegators.Deleg, req.Header.Height, j)), "OLT")] >= old(bal(ctx.balances))[balKey(bytes(ndScanA(ctx.netwkDelegators.Deleg, req.Header.Height, j)), "OLT")] + old(ndPend(ctx.netwkDelegators.Deleg, req.Header.Height, bytes(ndScanA(ctx.netwkDelegators.Deleg, req.Header.Height, j))))   // C12.paid-to-delegator
+//@   ensures forall k string :: ndRaw(ctx.netwkDelegators.Deleg)[k] != old(ndRaw(ctx.netwkDelegators.Deleg))[k] ==> exists a bytes :: k == ndPendKey(ctx.netwkDelegators.Deleg, req.Header.Height, a)   // C12.only-height-H
 //@   ensures forall k string :: bal(ctx.balances)[k] >= old(bal(ctx.balances))[k]                                               // C03.nobody-debited
 //@   ensures forall cur string :: cur != "OLT" ==> balTotal(ctx.balances)[cur] == old(balTotal(ctx.balances))[cur]              // C02.conserve
 //@   ensures ndActTotal(ctx.netwkDelegators.Deleg) == old(ndActTotal(ctx.netwkDelegators.Deleg))                                                          // C12.active-untouched
